@@ -405,6 +405,14 @@ func (g *gen) blockCandidate(rich bool) *nast.StringValue {
 				b.WriteByte(' ')
 			}
 		}
+		if r.Chance(12) {
+			// a long line (printers treat long and short text differently)
+			target := r.Range(71, 140)
+			for b.Len() < target {
+				b.WriteByte(' ')
+				b.WriteString(words[r.Intn(len(words))])
+			}
+		}
 		lines[i] = b.String()
 	}
 	if !r.Chance(12) {
